@@ -20,7 +20,7 @@ REQUESTS_PER_ENGINE = 60
 RULE = (
     "case = (query, operation_name, variables, context, error coercer) with query drawn from: random unicode / GraphQL-punctuation text, "
     "str and bytes (also invalid UTF-8 and embedded NUL), token-level mutations of generated valid documents (delete, duplicate, swap, "
-    "insert, unbalance), deep nesting (to depth 2000), and valid documents; operation_name from {None, '', a real name, arbitrary text}; "
+    "insert, unbalance), deep nesting (any depth to 3000), and valid documents; operation_name from {None, '', a real name, arbitrary text}; "
     "variables from {None, arbitrary JSON objects}; error coercer from {default, custom async coercer that counts and rewrites}. Oracle = "
     "envelope predicate: execute returns a dict with data; errors only as a non-empty list of dicts with string message, path list|None, "
     "locations of positive line/column inside the query text, extensions only when non-empty; syntax errors (per the front end) and failed "
@@ -240,7 +240,9 @@ def case(c, stats):
                 if fk == "raise_shared":  # the same exception object at several positions
                     faults = [[k, {"kind": fk, "payload": None}] for k in c.subset(base["fault_keys"], 60)[:4] or [base["fault_keys"][0]]]
         elif kind == "deep":
-            depth = c.choice([50, 200, 400, 2000])
+            # any depth: the band in which the front end still parses but the engine's own recursion gives up moves with the
+            # recursion limit and the stack already in use, so no fixed list of depths is sure to contain it
+            depth = c.choice([50, 200, 400, 2000]) if c.maybe(25) else c.weighted([(3, c.int(20, 300)), (4, c.int(300, 1200)), (2, c.int(1200, 3000))])
             which = c.choice(["sel", "list", "obj"])
             if which == "sel":
                 q = "{ a " * depth + "}" * depth
